@@ -236,6 +236,8 @@ class Builder:
                     kw[name] = None
                 elif "__impostor__" in cd:
                     kw[name] = type(cd["__impostor__"], (), {"__module__": cls.__module__})()
+                elif "__literal__" in cd:
+                    kw[name] = {"tuple": (), "list": [], "str": "", "zero": 0, "false": False}[cd["__literal__"]]
                 else:
                     sw = ins
                     case = next(c for c in sw["cases"] if spec.case_class_name(sw, c) == cd["__case__"])
